@@ -62,6 +62,8 @@ SPECS = [
     ("y ~ 0 + z + scale(x):f + (scale(x)|g)", "a"),
     ("y ~ center(xc) + scale(xc):f + (center(xc)|g)", "a"),
     ("y ~ f + scale(x) + (0 + center(x)|g)", "a"),  # same term names as specs 0 and 3, at other column offsets
+    ("y ~ x + C(g, enc)", "a"),  # 'enc' is an encoding object the caller keeps in its namespace
+    ("y ~ x + C(g, enc)", "b"),
 ]
 
 
@@ -152,13 +154,15 @@ def describe(formula):
 def make_ns():
     from formulae import design_matrices, model_description
 
-    ns = {"design_matrices": design_matrices, "model_description": model_description, "np": np, "scale_factor": 2.0, "x": "not a column"}
+    from formulae.categorical import Treatment
+
+    ns = {"design_matrices": design_matrices, "model_description": model_description, "np": np, "scale_factor": 2.0, "x": "not a column", "enc": Treatment()}
     exec(NS_SRC, ns)
     return ns
 
 
 def ns_snap(ns):
-    return {k: id(v) for k, v in ns.items() if k != "__builtins__"}
+    return {k: (id(v), repr(sorted(vars(v).items())) if k == "enc" else None) for k, v in ns.items() if k != "__builtins__"}
 
 
 def frame_snap(df):
@@ -197,6 +201,12 @@ class World:
             if kind == "cfg":
                 self.formulae.config["EVAL_UNSEEN_CATEGORIES"] = ev[1]
                 return {"mode": self.formulae.config["EVAL_UNSEEN_CATEGORIES"]}
+            if kind == "cfgbad":  # an assignment the configuration must refuse (and that must change nothing)
+                try:
+                    self.formulae.config["EVAL_UNSEEN_CATEGORIES"] = ev[1]
+                    return {"refused": False}
+                except (ValueError, KeyError):
+                    return {"refused": True}
             if kind == "edit":  # the caller edits one of its new-data frames in place
                 which, j = ev[1], ev[2]
                 if (which, j) not in self.frames:
@@ -253,6 +263,8 @@ class World:
 def ref_key(ev, slots_specs, mode, versions=None):
     if ev[0] == "edit":
         return ("edit",)
+    if ev[0] == "cfgbad":
+        return ("cfgbad", ev[1])
     if ev[0] in ("evalc", "evalg"):
         spec = slots_specs[ev[1]]
         v = (versions or {}).get((SPECS[spec][1], ev[2]), 0)
@@ -272,7 +284,7 @@ def _ref_one(key):
 
     with core.quiet():
         w = World()
-        if key[0] in ("build", "md", "cfg"):
+        if key[0] in ("build", "md", "cfg", "cfgbad"):
             return key, w.run(list(key))
         if key[0] == "edit":
             return key, {"edited": True}
@@ -293,6 +305,7 @@ def all_ref_keys():
                     for v in (0, 1):
                         keys.append((op, spec, j, mode, v))
     keys.append(("edit",))
+    keys.append(("cfgbad", "ignore"))
     return keys
 
 
@@ -337,6 +350,7 @@ def events_for(nslots):
             evs.append(["evalc", s, j])
             evs.append(["evalg", s, j])
     evs += [["cfg", m] for m in MODES]
+    evs += [["cfgbad", "ignore"]]
     evs += [["md", i] for i in range(len(SPECS))]
     return evs
 
